@@ -672,10 +672,12 @@ func runC05Concurrent(r *mon.Run, stream uint64) {
 }
 
 func runC05(r *mon.Run, replay string) {
-	r.Rule("histories interleaving pool submissions (fresh, dependent/ephemeral, stale-basis on ancestors or sibling forks, conflicting) with blocks that confirm, ignore or double-spend pooled transactions, reorgs to longer forks, and blocks mined by coreutils.MineBlock from the pool; after every step the reported v1-then-v2 pool sequence is validated transaction by transaction by core/consensus against the pure tip ledger, mined blocks are labelled by the pure oracle and must be adopted, and every accepted id that disappeared must be confirmed, have an input (or pooled ancestor's input) spent/reverted by a block applied or reverted in that step, or be invalid on the new tip+pool under the oracle; plus MineBlock racing with submissions under the race detector")
+	r.Rule("histories interleaving pool submissions (fresh, dependent/ephemeral, stale-basis on ancestors or sibling forks, conflicting) with blocks that confirm, ignore or double-spend pooled transactions, reorgs to longer forks, and blocks mined by coreutils.MineBlock from the pool; after every step the reported v1-then-v2 pool sequence is validated transaction by transaction by core/consensus against the pure tip ledger, mined blocks are labelled by the pure oracle and must be adopted, and every accepted id that disappeared must be confirmed, have an input (or pooled ancestor's input) spent/reverted by a block applied or reverted in that step, or be invalid on the new tip+pool under the oracle; plus MineBlock racing with submissions, and by-id lookups from 8 goroutines as the first pool operations after an invalidation (each must agree with the quiet answer), under the race detector")
 	r.Assume("pool-full eviction is exercised only in the dedicated scenario (independent ~0.9 MB transactions with distinct fee rates)")
 	if st, ok := replayStream(replay); ok {
-		if st >= 59000 {
+		if st >= 59500 {
+			runC05ConcurrentLookups(r, st)
+		} else if st >= 59000 {
 			runC05Concurrent(r, st)
 		} else if st >= 58800 {
 			runC05MixedMine(r, st)
@@ -690,6 +692,8 @@ func runC05(r *mon.Run, replay string) {
 	}
 	parallel(r.Pick(300, 5000), func(i int) { runC05History(r, uint64(50000+i)) })
 	parallel(r.Pick(24, 300), func(i int) { runC05Concurrent(r, uint64(59000+i)) })
+	parallel(r.Pick(24, 300), func(i int) { runC05ConcurrentLookups(r, uint64(59500+i)) })
+	r.Floor("concurrent_lookup_rounds_after_invalidation", 80)
 	parallel(r.Pick(2, 24), func(i int) { runC05PoolFull(r, uint64(58000+i)) })
 	parallel(r.Pick(3, 30), func(i int) { runC05Resubmit(r, uint64(58500+i)) })
 	parallel(r.Pick(12, 120), func(i int) { runC05MixedMine(r, uint64(58800+i)) })
@@ -1155,4 +1159,128 @@ func runC05PoolFull(r *mon.Run, stream uint64) {
 	}
 	r.Eval()
 	r.Distinct(fmt.Sprintf("poolfull/%d/%d", stream, len(subs)))
+}
+
+// runC05ConcurrentLookups: by-id lookups from several goroutines as the first
+// pool operations after the pool was invalidated (a block, or a rejected
+// conflicting set). Every lookup has to agree with the answer the same lookup
+// gives once things are quiet - a pooled transaction stays retrievable
+// whoever else is asking - and the race detector watches the manager.
+func runC05ConcurrentLookups(r *mon.Run, stream uint64) {
+	rng := r.RNG(stream)
+	p := chainlab.RandomParams("v2only", rng)
+	env := chainlab.NewEnv(p)
+	t := chainlab.NewTree(env, rng)
+	node, err := chainlab.NewTestNode(env, nil)
+	if err != nil {
+		r.Inconclusive(err.Error())
+		return
+	}
+	cm := node.CM
+	tip := t.Root
+	for i := 0; i < 4; i++ {
+		tip = t.Extend(tip, chainlab.Profile{MaxTxns: 2})
+	}
+	if err := cm.AddBlocks(chainlab.Blocks(tip.PathFromGenesis())); err != nil {
+		r.Inconclusive(err.Error())
+		return
+	}
+	cs := c05Case{Stream: stream, Params: p}
+	for round := 0; round < 6; round++ {
+		cur := snapPool(cm)
+		pb, _ := tip.L.PoolBuilder(rng, cur.v1, cur.v2)
+		m1, m2 := len(pb.Txns), len(pb.V2Txns)
+		pb.EphFloor = 1 << 30 // confirmed inputs only: no set has to carry pooled parents
+		for j := 0; j < 12+rng.IntN(20); j++ {
+			pb.V2Spend(env.Actors[rng.IntN(len(env.Actors))], 0)
+		}
+		_, fresh := pb.TakeNew(&m1, &m2)
+		if len(fresh) > 0 {
+			if _, err := cm.AddV2PoolTransactions(tip.L.State.Index, fresh); err != nil {
+				r.Count("conclookup_skip:submission-refused", 1)
+				continue
+			}
+		}
+		set := cm.V2PoolTransactions()
+		if len(set) < 3 {
+			r.Count("conclookup_skip:pool-too-small", 1)
+			continue
+		}
+		// invalidate the pool: a block confirming a prefix of the set, or a
+		// rejected set that conflicts with the pool
+		if rng.IntN(2) == 0 {
+			bb := tip.L.NewBuilder(rng)
+			for _, x := range set[:1+rng.IntN(len(set)/2)] {
+				bb.TryV2("from-pool", x.DeepCopy())
+			}
+			blk := bb.Seal(tip.Block.Timestamp.Add(env.Net.BlockInterval), env.A(chainlab.Miner).Addr, true)
+			n := t.Attach(tip, blk, "", bb.Kinds)
+			if !n.ChainValid {
+				r.Count("conclookup_skip:block-invalid", 1)
+				continue
+			}
+			if err := cm.AddBlocks(chainlab.Blocks([]*chainlab.Node{n})); err != nil || cm.Tip().ID != n.ID {
+				r.Violation("concurrent-addblocks", fmt.Sprintf("valid block rejected: %v", err), cs, nil)
+				return
+			}
+			tip = n
+		} else {
+			c := set[rng.IntN(len(set))].DeepCopy()
+			c.ArbitraryData = []byte{9, 9, byte(round)}
+			pb.ResignV2(&c)
+			cm.AddV2PoolTransactions(tip.L.State.Index, []types.V2Transaction{c})
+		}
+		ids := make([]types.TransactionID, len(set))
+		for i := range set {
+			ids[i] = set[i].ID()
+		}
+		const workers = 8
+		found := make([][]bool, workers)
+		wrong := make([]string, workers)
+		start := make(chan struct{})
+		var wg sync.WaitGroup
+		for w := 0; w < workers; w++ {
+			wg.Add(1)
+			go func(w int) {
+				defer wg.Done()
+				found[w] = make([]bool, len(ids))
+				<-start
+				for k := range ids {
+					i := (k + w*5) % len(ids)
+					var got types.V2Transaction
+					var ok bool
+					if pn := mon.Guard(func() { got, ok = cm.V2PoolTransaction(ids[i]) }); pn != nil {
+						wrong[w] = fmt.Sprint("V2PoolTransaction panicked: ", pn)
+						return
+					}
+					if ok && got.ID() != ids[i] {
+						wrong[w] = fmt.Sprintf("V2PoolTransaction(%v) returned %v", ids[i], got.ID())
+						return
+					}
+					found[w][i] = ok
+				}
+			}(w)
+		}
+		close(start)
+		wg.Wait()
+		for w := range wrong {
+			if wrong[w] != "" {
+				r.Violation("lookup-wrong:concurrent", wrong[w], cs, nil)
+				return
+			}
+		}
+		for i, id := range ids {
+			_, quiet := cm.V2PoolTransaction(id)
+			for w := 0; w < workers; w++ {
+				if found[w][i] != quiet {
+					r.Violation("lookup-differs-under-concurrency", fmt.Sprintf("one of %d concurrent lookups of %v right after the pool was invalidated reported present=%v, the same lookup once quiet reports present=%v", workers, id, found[w][i], quiet), cs, nil)
+					return
+				}
+			}
+		}
+		r.Count("concurrent_lookup_rounds_after_invalidation", 1)
+		r.Count("concurrent_lookups_compared", workers*len(ids))
+	}
+	r.Eval()
+	r.Distinct(fmt.Sprintf("conclookup/%d", stream))
 }
